@@ -116,7 +116,7 @@ C04_V(S, S2, c, e) ==
         ELSE {})
   \cup V("C04.lockedAtThreshold",
          \A u \in Pids : S2.db[u].att > S.db[u].att /\ S2.db[u].att >= c.lockAfter
-                          => S2.db[u].lockedUntil = S2.now + c.lockDuration)
+                          => S2.db[u].lockedUntil = S2.now + Thr(c.lockDuration))
   \cup V("C04.countsByOne", \A u \in Pids : S2.db[u].att > S.db[u].att => S2.db[u].att = S.db[u].att + 1 \/ S2.db[u].att = 1)
 
 -----------------------------------------------------------------------------
@@ -152,7 +152,7 @@ C05_V(S, S2, c, e) ==
                                       /\ (S2.rm = S.rm \/ RmAuth(S, c, e)))
   ELSE IF e.act = "RecoverStart" /\ Has(c, "recover") /\ e.valid /\ e.pid \in Pids /\ S.db[e.pid].ex THEN
        V("C05.supersession", S2.db[e.pid].rTok >= 1 /\ S2.db[e.pid].rTok # S.db[e.pid].rTok
-                             /\ S2.db[e.pid].rExp = S2.now + c.recoverTTL)
+                             /\ S2.db[e.pid].rExp = S2.now + Thr(c.recoverTTL))
        \cup V("C05.onlyOwner", \A v \in Pids \ {e.pid} : S2.db[v] = S.db[v])
   ELSE {}
 
@@ -334,7 +334,7 @@ ClientView(S, c, e) ==
   [class |-> r.resp.class, loc |-> r.resp.loc, sess |-> r.st.sess[e.b], cookie |-> r.st.cookie[e.b]]
 
 WouldLock(c, ur, now) ==
-  Has(c, "lock") /\ (IF now - ur.last <= c.lockWindow THEN ur.att + 1 ELSE 1) >= c.lockAfter
+  Has(c, "lock") /\ (IF now - ur.last <= Thr(c.lockWindow) THEN ur.att + 1 ELSE 1) >= c.lockAfter
 
 NIViolations(S, c) ==
   LET known  == {u \in Pids : S.db[u].ex /\ S.db[u].pw >= 1}
